@@ -5,7 +5,7 @@ CONSTANTS
   AgentHost = 9
   FixMixedSum = TRUE
   FixEmptyHost = TRUE
-  Shapes <- TailShapes
+  Shapes <- MCLeaves14
   Percs = {FALSE, TRUE}
   MaxLeaves = 4
 VIEW View
